@@ -41,6 +41,14 @@ Proof.
       rewrite !app_length, skipn_length. cbn [length]. lia.
 Qed.
 
+Lemma src_read_len m src d s' e : src_read m src = (d, s', e) -> (length d <= m)%nat.
+Proof.
+  revert d s' e; induction src as [|seg rest IH]; intros d s' e H.
+  - cbn [src_read] in H. inversion H; subst. cbn [length]. lia.
+  - destruct seg as [|x seg]; cbn [src_read] in H; [eauto|].
+    inversion H; subst. rewrite firstn_length. lia.
+Qed.
+
 (* ================= copy_buffer.go ================= *)
 (* for every segmentation of the source and every buffer size the destination receives
    exactly the source's bytes, and the loop terminates within the stated fuel *)
@@ -671,6 +679,38 @@ Proof.
     apply (long_prefix_has_prefix ws_101 chunk (concat rest) r); [now rewrite H2 | rewrite ws_101_len; exact H3].
 Qed.
 
+(* ... and so for every segmentation of everything the upstream sends (the 101 head, payload
+   in the same chunk, whatever follows): the chunk forwarded by the handshake step (at most
+   1024 bytes) followed by what the relay's copy delivers is that stream, unmodified and
+   without a hole *)
+Lemma ws_read_loop_chunk_len : forall fuel acc src chunk rest,
+  (length acc <= 1024)%nat -> ws_read_loop fuel acc src = Ok (Some (chunk, rest)) -> (length chunk <= 1024)%nat.
+Proof.
+  induction fuel as [|f IH]; intros acc src chunk rest Ha H; cbn [ws_read_loop] in H.
+  { destruct (12 <=? length acc)%nat; [inversion H; subst; exact Ha | discriminate]. }
+  destruct (12 <=? length acc)%nat; [inversion H; subst; exact Ha|].
+  destruct (src_read (1024 - length acc) src) as [[d s'] e] eqn:E. destruct e; [discriminate|].
+  apply IH in H; [exact H|]. rewrite app_length. pose proof (src_read_len _ _ _ _ _ E). lia.
+Qed.
+
+Theorem ws_client_stream_any_segmentation : forall useg, has_prefix (concat useg) ws_101 = true ->
+  exists chunk rest, ws_read_first useg = Ok (Some (chunk, rest)) /\
+    has_prefix chunk ws_101 = true /\ (length chunk <= 1024)%nat /\
+    exists c, copy_buffer rest = Ok c /\ chunk ++ c = concat useg.
+Proof.
+  intros useg H. destruct (ws_upgrade_any_segmentation useg H) as [chunk [rest [H1 [H2 H3]]]].
+  exists chunk, rest. split; [exact H1|]. split; [exact H2|]. split.
+  - apply (ws_read_loop_chunk_len 12 [] useg chunk rest); [cbn [length]; lia | exact H1].
+  - exists (concat rest). split; [apply copy_preserves_stream | exact H3].
+Qed.
+
+Definition wit_reply_head : str := bs "HTTP/1.1 101 Switching Protocols"%string ++ [13; 10; 13; 10]%N.
+
+Example ws_head_with_payload_one_chunk :
+  exists chunk rest, ws_read_first [wit_reply_head ++ symseq 0 3000] = Ok (Some (chunk, rest)) /\
+    length chunk = 1024%nat /\ chunk ++ concat rest = wit_reply_head ++ symseq 0 3000.
+Proof. eexists. eexists. repeat split; vm_compute; reflexivity. Qed.
+
 Definition wit_reply : str := bs "HTTP/1.1 101 Switching Protocols
 "%string.
 
@@ -712,13 +752,6 @@ Example waiting_client_scenario :
 Proof. eexists. repeat split; vm_compute; reflexivity. Qed.
 
 (* ================= fuel: the loops of the reader model terminate within the fuel supplied ================= *)
-Lemma src_read_len m src d s' e : src_read m src = (d, s', e) -> (length d <= m)%nat.
-Proof.
-  revert d s' e; induction src as [|seg rest IH]; intros d s' e H.
-  - cbn [src_read] in H. inversion H; subst. cbn [length]. lia.
-  - destruct seg as [|x seg]; cbn [src_read] in H; [eauto|].
-    inversion H; subst. rewrite firstn_length. lia.
-Qed.
 
 Lemma peek_loop_fuel : forall fuel b n, (b_cap b - buffered b <= fuel)%nat -> peek_loop fuel b n <> None.
 Proof.
